@@ -40,30 +40,38 @@ Inductive step_out :=
 | SPanic (p : panic)
 | SItem (r : range) (st : sl_state).
 
+(* the interlaced branch of ScanLineRanges::next: ((pass, pixels per line), new (pass, row));
+   None = unreachable!() *)
+Definition pass_start (p : Z) : Z := match p with 3 => 4 | 5 => 2 | 7 => 1 | _ => 0 end.
+Definition next_px (w h : Z) (st : Z * Z) : option ((Z * Z) * (Z * Z)) :=
+  let ps := skip w h st in
+  let p := fst ps in let row := snd ps in
+  match factors p with
+  | None => None
+  | Some (pf, ys) =>
+      Some ((p, ppl w p pf),
+            if h <=? row + ys then (p + 1, pass_start (p + 1)) else (p, row + ys))
+  end.
+
+Definition line_len (bits_pp : Z) (has_filter : bool) (pixels : Z) : Z :=
+  cdiv (pixels * bits_pp) 8 + (if has_filter then 1 else 0).
+
 (* ScanLineRanges::next *)
 Definition ranges_next (w h bits_pp : Z) (has_filter : bool) (st : sl_state) : step_out :=
   if sl_left st =? 0 then SDone else
   let r :=
     match sl_pass st with
     | Some ps =>
-        let ps := skip w h ps in
-        let p := fst ps in let row := snd ps in
-        match factors p with
+        match next_px w h ps with
         | None => None
-        | Some (pf, ys) =>
-            let pixels := ppl w p pf in
-            let ps' := if h <=? row + ys
-                       then (p + 1, match p + 1 with 3 => 4 | 5 => 2 | 7 => 1 | _ => 0 end)
-                       else (p, row + ys) in
-            Some (pixels, Some p, Some ps')
+        | Some ((p, pixels), ps') => Some (pixels, Some p, Some ps')
         end
     | None => Some (w, None, None)
     end in
   match r with
   | None => SPanic PUnreachable
   | Some (pixels, cur, ps') =>
-      let bits := pixels * bits_pp in
-      let len := cdiv bits 8 + (if has_filter then 1 else 0) in
+      let len := line_len bits_pp has_filter pixels in
       if sl_left st <? len then SDone
       else SItem (len, cur, pixels) {| sl_pass := ps'; sl_left := sl_left st - len |}
   end.
